@@ -112,11 +112,14 @@ def check(run: Run) -> None:
     gnode = ("param", gv.pos_params[1])
     gself = ("param", gv.pos_params[0])
     dct = ("attr", gnode, ATTR)
-    key = ("free", lk.pos_params[1])
+    from ..lib import carried_param_terms
+
+    keys = carried_param_terms(m, ctx, lk, fcls, gv, lk.pos_params[1])
     found_stores = [n for n in own_nodes(gv) if isinstance(n, ast.Assign) and any(isinstance(tg, ast.Attribute) and tg.attr == "_found" for tg in n.targets)]
     run.check(len(found_stores) >= 1, "C16.R3", gv, gv.node, "the found value is recorded", "lookup never records a value")
     for st in found_stores:
         v = strip_sites(fg.term_of(st.value))
+        key = next((k_ for k_ in keys if any(a == ("subscript", dct, k_) for a in unphi_terms(v))), keys[0])
         ok_v = any(a == ("subscript", dct, key) for a in unphi_terms(v)) or v == ("subscript", dct, key)
         run.check(ok_v, "C16.R3", gv, st, "recorded value is node._q_metadata[key]", f"recorded value is {show(v)[:100]}", term=show(v))
         run.check(_member_fact(fg, st, dct, key, True), "C16.R3", gv, st, "value recorded under the fact 'key in node._q_metadata'", "the value is recorded under a condition other than key membership (e.g. truthiness of the stored value): a key set to a falsy value does not stop the search and an older value is returned", "if metadata_name in q_metadata")
